@@ -205,6 +205,19 @@ class ParseRoles:
                     if okk:
                         fam.add(b.id)
                         changed = True
+            if want_args == 0:
+                # `fn bump(&mut self) -> Result<Token> { let tok = self.cur; self.tokenizer.next()?; Ok(tok) }`: steps exactly one
+                # token on every success path (it hands back the token it stepped over instead of the new one)
+                import r_order
+                for b in self.prog.bodies:
+                    if b.id in fam or b.is_closure or b.arg_count != role.arg_count or not r_errd.is_crate_result(b.locals[0]['ty']) \
+                            or not b.locals[1]['ty'].startswith('&mut ') or b.sccs():
+                        continue
+                    local = [c for c in b.live_calls if c.ruid is not None]
+                    steps = [c for c in local if c.ruid in fam and c.term['arg_tys'] and c.term['arg_tys'][0].startswith('&mut ')]
+                    if len(steps) == 1 and len(local) == 1 and not r_order._ok_return_reachable(b, 0, {steps[0].bb}):
+                        fam.add(b.id)
+                        changed = True
         return fam
 
     # ---- call classification helpers
